@@ -495,7 +495,7 @@ class World(BaseWorld):
             else:
                 getattr(self.H, what)()
         except Exception as e:
-            self.probe("observe_raised")
+            self.probe("observe_raised:%s:%s:%s" % (what, type(e).__name__, str(e)[:40]))
         after = self.stored()
         if after != before or self.recorded().canonical() != cb or self.H.num_ancillas != ab:
             self.fail("history_op_changed_model", "%s changed the model" % what)
@@ -603,9 +603,14 @@ class World(BaseWorld):
                 self.probe("table_skipped")
         # 3. the four reduced / converted forms
         n = H.num_binary_variables
-        for form, dkind in (("to_pubo", BOOL), ("to_puso", SPIN), ("to_qubo", BOOL), ("to_quso", SPIN)):
+        forms = [("to_pubo", BOOL, {}), ("to_puso", SPIN, {}), ("to_qubo", BOOL, {}), ("to_quso", SPIN, {})]
+        if stored.degree() > 2:
+            forms += [("to_pubo", BOOL, {"deg": 2}), ("to_puso", SPIN, {"deg": 2})]
+            if stored.degree() > 3:
+                forms += [("to_pubo", BOOL, {"deg": 3})]
+        for form, dkind, fkw in forms:
             try:
-                D = getattr(H, form)()
+                D = getattr(H, form)(**fkw)
             except Exception as e:
                 self.fail("unexpected_exception", "%s: %s: %s" % (form, type(e).__name__, e))
                 continue
@@ -641,7 +646,7 @@ class World(BaseWorld):
                         self.fail("reduced_minimiser_not_feasible_optimal", "%s(): convert_solution(%r) raised %s: %s" % (form, sol, type(e).__name__, e))
                         continue
                     judge(x, "%s() minimiser %r" % (form, s), "reduced_minimiser_not_feasible_optimal")
-            self.probe("form_" + form)
+            self.probe("form_" + form + ("_deg%d" % fkw["deg"] if fkw else ""))
             if any(l >= n for l in labs):
                 self.probe("reduction_ancillas_present")
                 if self.issued:
